@@ -3,6 +3,8 @@ package model
 import (
 	"fmt"
 
+	"github.com/youzan/ZanRedisDB/rockredis"
+
 	"verif/harness/smlab"
 	"verif/harness/vc"
 )
@@ -165,10 +167,15 @@ func runC09(c *vc.Ctx) error {
 			return caseSpec{Name: fmt.Sprintf("exhaustive-%d", idx), Ops: exh.seq(idx), Store: st}
 		})
 	}
+	// directed size-boundary family (both tiers, all three sizes)
+	sb := sizebSpecs(false)
+	cp.run(len(sb), func(i int) caseSpec { return sb[i] })
 	cp.finish()
 	ev := c.Ev
 	st := cp.stats
-	ev.Rule = "cases: the C08 generator's sequences (random 20-200 commands over tiny pools, PRNG(seed,i); sequences of length <= 3 over the per-type alphabet, exhaustive in the thorough tier) executed (a) one raft entry per apply batch and (b) with maximal runs of up to 8 consecutive writes inside ONE apply batch; commands that fail are part of the sequences. After every command (after every batch in (b)) all identities of the property are evaluated by read commands on every collection key named so far, and after every write the raw engine content is walked with the exported codecs (size vs element keys, zset member/score bijection, list sequence, orphaned elements). No model is involved. evaluations = executed sequences; distinct_nontrivial = number of distinct (type, identity) pairs that were evaluated at least once on a NON-EMPTY collection."
+	ev.Set("size_boundary_cases_executed", len(sb))
+	ev.Set("size_boundary_sizes", []int{rockredis.RangeDeleteNum - 1, rockredis.RangeDeleteNum, rockredis.RangeDeleteNum + 1})
+	ev.Rule = "cases: the C08 generator's sequences (random 20-200 commands over tiny pools, PRNG(seed,i); sequences of length <= 3 over the per-type alphabet, exhaustive in the thorough tier) executed (a) one raft entry per apply batch and (b) with maximal runs of up to 8 consecutive writes inside ONE apply batch; commands that fail are part of the sequences. After every command (after every batch in (b)) all identities of the property are evaluated by read commands on every collection key named so far, and after every write the raw engine content is walked with the exported codecs (size vs element keys, zset member/score bijection, list sequence, orphaned elements). No model is involved. Plus a directed size-boundary family: per collection type a collection of exactly N-1, N, N+1 elements (N = rockredis.RangeDeleteNum = 5000, the constant the whole-key removal paths branch on) is built with multi-argument commands, removed as a whole (*CLEAR, internal *MCLEAR, ZREMRANGEBYRANK 0 -1, expiry + local-deletion checker pass; LTRIM of a boundary-sized head/tail) and re-created with one element, on all four stores. evaluations = executed sequences; distinct_nontrivial = number of distinct (type, identity) pairs that were evaluated at least once on a NON-EMPTY collection."
 	ev.Set("identities_evaluated", st.Identities)
 	ev.Set("identities_by_kind", st.IdentByKind)
 	ev.Set("keys_checked", st.KeysChecked)
